@@ -52,6 +52,27 @@ def app(environ, start_response):
             yield b"second"
         start_response("200 OK", hdr + [("Content-Length", "12")])
         return gen()
+    if path.startswith("/file/"):
+        n = int(path[6:])
+        fn = os.path.join(os.path.dirname(os.path.abspath(__file__)), "payload-%d.bin" % n)
+        if not os.path.exists(fn):
+            with open(fn + ".%d" % os.getpid(), "wb") as f:
+                f.write(b"F" * n)
+            os.rename(fn + ".%d" % os.getpid(), fn)
+        start_response("200 OK", hdr + [("Content-Length", str(n))])
+        return environ["wsgi.file_wrapper"](open(fn, "rb"))
+    if path.startswith("/big/"):
+        n = int(path[5:])
+        start_response("200 OK", hdr + [("Content-Length", str(n))])
+        return [b"B" * n]
+    if path.startswith("/slowstream/") or path.startswith("/slowcl/"):
+        secs = float(path.split("/")[2])
+        def gen2():
+            yield b"first-part;"
+            time.sleep(secs)
+            yield b"second-part;"
+        start_response("200 OK", hdr + ([("Content-Length", "23")] if path.startswith("/slowcl/") else []))
+        return gen2()
     if path.startswith("/sleep/"):
         time.sleep(float(path[7:]))
     if path == "/hang":
